@@ -854,8 +854,9 @@ fn fcase(k: Kind, n_tag: usize) -> impl Strategy<Value = FCase> {
         gain_val(fk),
         0usize..(n + 4),
         any::<bool>(),
+        0u8..8,
     )
-        .prop_map(move |(mut chans, other, offsets, gains, offset, gain, il, short)| {
+        .prop_map(move |(mut chans, other, offsets, gains, offset, gain, il, short, dup)| {
             // make channels pairwise distinct so a permutation is visible (integers only; the
             // amplitude grid of 8-bit formats has 256 points >= 32 channels)
             if k.is_int() {
@@ -866,6 +867,18 @@ fn fcase(k: Kind, n_tag: usize) -> impl Strategy<Value = FCase> {
                         v = if v >= k.max_raw() { k.min_raw() } else { v + 1 };
                     }
                     *c = v;
+                }
+            }
+            // one case in four has equal neighbours instead: [a, a, b, b, ..] (dup = 0) or one value throughout (dup = 1); a
+            // per-channel operation must not care what the neighbouring channel holds
+            if dup == 0 {
+                for j in (1..chans.len()).step_by(2) {
+                    chans[j] = chans[j - 1];
+                }
+            } else if dup == 1 {
+                let first = chans[0];
+                for c in chans.iter_mut() {
+                    *c = first;
                 }
             }
             // frame-wide scalar operands must be valid for every channel: repair against each
@@ -888,7 +901,7 @@ pub fn run(ctx: &mut Ctx) {
     ctx.set_rule(
         "sample level: (format, operation, sample, offset-or-gain) with the operand repaired by construction so that the mathematical result stays in range \
          (offsets beyond the window land exactly on MIN/MAX, gains are halved); 8/16-bit formats exhaustively against identity operands; \
-         frame level: (format, width N, channel contents pairwise distinct, second frame, per-channel and scalar operands, iterator length); \
+         frame level: (format, width N, channel contents pairwise distinct in three cases out of four and with equal neighbours in the fourth, second frame, per-channel and scalar operands, iterator length); \
          every width 1..=32 for u8, i16, U48, f32, widths 1, 2, 5, 32 and the bare-sample frame for all 14 formats; \
          non-trivial: unsigned or custom-width format, or operand/result on a range boundary (sample level); unsigned/custom format, N >= 5, short iterator or bare sample (frame level)",
     );
@@ -937,6 +950,43 @@ pub fn run(ctx: &mut Ctx) {
         },
         check_sample,
     );
+
+    // scaling by exactly 1.0 and offsetting by exactly 0 at the very ends of every integer range: the float image of the
+    // last few values of a format wider than its Float's mantissa is 1.0 itself, which the general check leaves out (it is
+    // outside the float->int domain); the statement still demands "the same sample ... within that float precision"
+    #[derive(Clone, Debug, Serialize, Deserialize)]
+    struct EndCase {
+        kind: Kind,
+        raw: i128,
+    }
+    let mut cases = Vec::new();
+    for &k in ALL_KINDS.iter().filter(|k| k.is_int()) {
+        for d in 0..300i128 {
+            if k.in_range_raw(k.max_raw() - d) && k.in_range_raw(k.min_raw() + d) {
+                cases.push(EndCase { kind: k, raw: k.max_raw() - d });
+                cases.push(EndCase { kind: k, raw: k.min_raw() + d });
+            }
+        }
+    }
+    ctx.enumerate("sample/identity-at-the-range-ends", true, cases.into_iter(), |c: &EndCase, st: &mut Stats| {
+        st.nt(true);
+        let k = c.kind;
+        ensure!(k.in_range_raw(c.raw), "bad case: raw out of range");
+        let fl = k.float_companion();
+        let one = if fl == Kind::F32 { Val::F32(1.0) } else { Val::F64(1.0) };
+        let got = sample_op(k, SOp::MulAmp, Val::I(c.raw), one);
+        let g = match got {
+            Val::I(g) => g,
+            _ => return Err("non-integer result".into()),
+        };
+        // allowed deviation: one unit of the Float's precision at full scale (0 when the format fits the mantissa)
+        let tol: i128 = if k.bits() <= fl.float_p() { 0 } else { 1i128 << (k.bits() - fl.float_p()) };
+        ensure!((g - c.raw).abs() <= tol, "{}: {} scaled by 1.0 gives {}, more than {} away (the float companion has {} significant bits)", k.name(), c.raw, g, tol, fl.float_p());
+        let zero = Val::I(0);
+        let o = sample_op(k, SOp::AddAmp, Val::I(c.raw), zero);
+        ensure!(o == Val::I(c.raw), "{}: {} offset by 0 gives {:?}", k.name(), c.raw, o);
+        Ok(())
+    });
 
     // frame level
     let per = ctx.pick(400u32, 4000);
